@@ -28,7 +28,7 @@
 #include "mma.h"
 #include "nlopt-util.h"
 
-unsigned mma_verbose = 0; /* > 0 for verbose output */
+THREADLOCAL unsigned mma_verbose = 0; /* > 0 for verbose output */
 
 #define MIN(a,b) ((a) < (b) ? (a) : (b))
 #define MAX(a,b) ((a) > (b) ? (a) : (b))
